@@ -38,7 +38,7 @@ func chainShape(c *Ctx, rule, short, fnName, field, callPat, lockField string) {
 	c.Ob(rule, name+"/in-loop", call.Pos(), inLoop(call.Block()), "the middleware invocation is not in a loop over the chain")
 	// iterates the registered chain (or a copy of it) by increasing index
 	src := T
-	okSrc := strings.Contains(src, recvOf(fn)+"."+field) && strings.Contains(src, "rangeindex")
+	okSrc := strings.Contains(src, recvOf(fn)+"."+field) && strings.Contains(src, "idx<")
 	c.Ob(rule, name+"/iterates-chain-in-order", call.Pos(), okSrc, "invoked function is "+calleeName(&call.Call)+" (expected element [i] of "+recvOf(fn)+"."+field+" for the range index i)")
 	// abort on first non-nil
 	again, trail := PrunedCanReach(fn, call, []Assume{{regexpQuote("(" + T + " != nil)"), true}, {regexpQuote("(" + T + " == nil)"), false}}, func(in ssa.Instruction) bool { return in == ssa.Instruction(call) }, nil)
@@ -59,7 +59,7 @@ func chainShape(c *Ctx, rule, short, fnName, field, callPat, lockField string) {
 		if rt == "nil" {
 			okDone := false
 			for _, g := range GuardTerms(ret) {
-				if strings.Contains(g, "rangeindex") && strings.HasSuffix(g, "==false") {
+				if strings.Contains(g, "idx<") && strings.HasSuffix(g, "==false") {
 					okDone = true
 				}
 			}
